@@ -117,6 +117,19 @@ def mkPSIUnitMulti (pid : Nat) (secs : List (PSISection × Bytes)) (conformant :
     let rest ← genRestChunks (bytes.length - e)
     return mk (firstPart ++ rest) none
 
+/-- re-cut a unit into chunks of 8..40 bytes (many packets, each stuffed by its adaptation field) -/
+def manyChunks (u : TSUnit) : Gen TSUnit := do
+  let mut left := u.payload.length
+  let mut out : Array Nat := #[]
+  let mut fuel := left + 1
+  while left > 0 && fuel > 0 do
+    fuel := fuel - 1
+    let s ← randRange 8 40
+    let s := min s left
+    out := out.push s
+    left := left - s
+  return { u with chunks := out.toList, firstAF := none }
+
 def patSection (pmtPIDs : List Nat) : Gen (PSISection × Bytes) := do
   let tsid ← randField 16
   let progs := pmtPIDs.zipIdx.map fun (pid, i) => ({ programMapID := pid, programNumber := i + 1 } : PATProgram)
@@ -130,6 +143,10 @@ structure StreamCfg where
   unitsPerPID : Nat := 2
   maxPayload : Nat := 600
   multiPMT : Nat := 1
+  /-- further PAT units (same programme list) anywhere in the multiplex after the first one -/
+  patRepeats : Nat := 0
+  /-- cut single-section PMT units into many small packets (6 and more packets per unit) -/
+  longPMT : Bool := false
 
 def shuffle {α} (xs : List α) : Gen (List α) := do
   let mut a := xs.toArray
@@ -144,16 +161,22 @@ def shuffle {α} (xs : List α) : Gen (List α) := do
 /-- a well-formed stream: PAT first, then everything else merged in a random order-preserving way -/
 def genStream (cfg : StreamCfg) : Gen StreamModel := do
   let mut units : List TSUnit := []
+  let mut firstPatN := 0
   -- PAT: one section; PMT units: 1..multiPMT sections (cut points conformant, see mkPSIUnitMulti)
   if !cfg.pmtPIDs.isEmpty then
     let ps ← patSection cfg.pmtPIDs
     let u ← mkPSIUnit 0 [ps]
     units := units ++ [u]
+    firstPatN := u.chunks.length
+    for _ in [0:cfg.patRepeats] do
+      let u' ← mkPSIUnit 0 [ps]
+      units := units ++ [u']
     for pmtPID in cfg.pmtPIDs do
       for _ in [0:cfg.unitsPerPID] do
         let nsec ← (do if cfg.multiPMT > 1 ∧ (← chance 1 2) then randRange 2 cfg.multiPMT else pure 1)
         let ss ← genList nsec (genSectionOfKind 1 false)
         let u ← (if nsec = 1 then mkPSIUnit pmtPID ss else mkPSIUnitMulti pmtPID ss true)
+        let u ← (if cfg.longPMT ∧ nsec = 1 then manyChunks u else pure u)
         units := units ++ [u]
   if cfg.dvb then
     for (pid, kind) in [(0x11, 2), (0x10, 3), (0x12, 4), (0x14, 5)] do
@@ -171,7 +194,7 @@ def genStream (cfg : StreamCfg) : Gen StreamModel := do
   let per := perPID units
   let patN := (per.find? (·.1 == 0)).map (fun e => e.2.1.length) |>.getD 0
   let rest := (per.filter (·.1 != 0)).map fun (pid, ps, _) => List.replicate ps.length pid
-  let sh ← shuffle rest.flatten
-  return { units := units, schedule := List.replicate patN 0 ++ sh }
+  let sh ← shuffle (rest.flatten ++ List.replicate (patN - firstPatN) 0)
+  return { units := units, schedule := List.replicate firstPatN 0 ++ sh }
 
 end Astits
